@@ -19,7 +19,9 @@
    S3 make_group_leader never returns the root for a non-root node (the root is alone in its group);
    S4 a node's parent has a smaller index than the node; S5 the node returned by make_group_leader is the
    recorded leader of its group; S6 the tree has exactly NUM_CODES leaves when it is reconstructed.
-   S1..S5 are asserted, not assumed, in the bounded group lh1.bounded_run; S6 is not reachable there. */
+   S1..S5 are asserted, not assumed, in the bounded group lh1.bounded_run, but that group is currently
+   UNDECIDED (parked: K=1 symbol exceeds 900 s / 14 GB), and S6 is not reachable there: all six are
+   UNVERIFIED hypotheses of the modular lh1 groups increment_node_freq / increment_for_code / reconstruct_tree. */
 /* ASSUME: lha_lh1_init is entered with every group_leader[] entry below NUM_TREE_NODES; its only caller
    lha_decoder_new passes calloc'ed (all-zero) memory.  Entries of unallocated groups are never written. */
 #ifdef VG_LH1_BOUNDED
